@@ -235,7 +235,7 @@ def fp_axioms():
     return {"exp_f32": ax_exp, "log_f32": ax_log}
 
 
-def sec_categorical_fp32(ck, trs, K):
+def sec_categorical_fp32(ck, trs, K, sample=True):
     """bit-precise float32 repetition of the selection obligations (finite logits |l| <= 1e30)"""
     it = Interp(mode="fp32")
     S = trs.symbols(it)
@@ -243,10 +243,12 @@ def sec_categorical_fp32(ck, trs, K):
     l, m = list(S["l"]), list(S["m"])
     fv = lambda x: z3.FPVal(x, F32)
     asm = [z3.And(z3.fpLEQ(x, fv(1e30)), z3.fpGEQ(x, fv(-1e30))) for x in l] + [disj(m)] + stubs.contracts(it)
+    ck.witness(f"witness.assumptions.fp32,K={K}", asm + [z3.Not(m[0])])
     ck.prove(f"categorical.mask.mode_allowed@fp32,K={K}", asm, allowed_idx(out["mode"][()], m), ackermann=True, extra_axioms=fp_axioms(), timeout=300,
              replay=judge_replay(trs, S, it.uf_apps, lambda o_, i_: jidx(o_, i_, "mode")))
-    ck.prove(f"categorical.mask.sample_allowed@fp32,K={K}", asm, allowed_idx(out["sample"][()], m), ackermann=True, extra_axioms=fp_axioms(), timeout=300,
-             replay=judge_replay(trs, S, it.uf_apps, lambda o_, i_: jidx(o_, i_, "sample")))
+    if sample:
+        ck.prove(f"categorical.mask.sample_allowed@fp32,K={K}", asm, allowed_idx(out["sample"][()], m), ackermann=True, extra_axioms=fp_axioms(), timeout=300,
+                 replay=judge_replay(trs, S, it.uf_apps, lambda o_, i_: jidx(o_, i_, "sample")))
 
 
 def sec_bernoulli(ck, n=3):
@@ -775,13 +777,20 @@ def main():
             ck.witness(f"witness.assumptions.{oid}", list(asm), nonlinear=kw.get("nonlinear", False))
         if not kw.get("nonlinear") and not kw.get("ackermann") and not isconc(goal):
             asm = list(asm) + div_axioms(list(asm) + [goal])      # valid facts about the quotients in the query (probs >= 0)
-        return _prove(oid, asm, goal, **kw)
+        ok = _prove(oid, asm, goal, **kw)
+        ob = ck.obls[-1]
+        if not ok and ob.oid == oid and ob.status == "unknown" and not kw.get("nonlinear") and not kw.get("ackermann"):
+            # the default solver occasionally wanders on an easy query: one retry after Ackermannisation (different preprocessing)
+            ck.obls.pop()
+            ck.inconclusive.remove(ob)
+            ok = _prove(oid, asm, goal, **dict(kw, ackermann=True))
+        return ok
     ck.prove = prove
     ck.mode = "LOG (probabilities under masks), XREAL = reals + IEEE -inf/+inf/NaN (which index mode/sample/policies return), FP32 bit-precise (two actions), REAL (SAC identities)"
     Ks = [2, 3, 5] if not ck.thorough else [2, 3, 4, 5, 6]
     ck.bound(categorical_K=Ks, bernoulli_n=3, multicategorical_dims=[[2, 3]] + ([[2, 3, 2]] if ck.thorough else []), policy_spaces=["Discrete(3)", "MultiDiscrete((2,3))", "MultiBinary(3)"],
              q_policy_K=[3] if not ck.thorough else [3, 5], epsilons=[0.1, 0.0, -0.5] + ([1.0, 0.5] if ck.thorough else []), sac_action_shapes=["()", "(2,)"],
-             fp32="full mask->normalise->gumbel-argmax pipeline bit-precise for K=2, logits in [-1e30, 1e30]" + ("" if ck.thorough else " (thorough tier only)"),
+             fp32="full mask->normalise->(gumbel-)argmax pipeline bit-precise: mode and sample for K=2, mode for K=3, logits in [-1e30, 1e30]" + ("" if ck.thorough else " (thorough tier only)"),
              note="masks are symbolic Boolean vectors with at least one allowed action (per component); logits/Q-values/features are arbitrary finite reals; keys symbolic")
     ck.stub(*stubs.STUB_NOTES)
     ck.stub("MLP / Linear sub-networks of MLPActorCriticPolicy (encoder, value head, action-head MLP, final Linear), MLPQPolicy (q_network) and MLPSACPolicy (encoder, mean and "
@@ -793,15 +802,15 @@ def main():
            "the probability with which a Q policy explores (statistical): decided is `uniform draw >= epsilon => greedy action`, which bounds the departure event by {u < epsilon}",
            "samples follow the masked distribution (statistical clause; decided: never a masked action, same distribution object as the reported log-probability)",
            "categorical distributions with more than 127 categories (distreqx returns int8 indices)")
-    trs2 = None
+    trs_by_K = {}
     for K in Ks:
         with ck.section(f"categorical@K={K}"):
-            t = sec_categorical(ck, K, quick_extra=(K == 3))
-            if K == 2:
-                trs2 = t
-    if ck.thorough and trs2 is not None:
-        with ck.section("categorical.fp32@K=2"):
-            sec_categorical_fp32(ck, trs2, 2)
+            trs_by_K[K] = sec_categorical(ck, K, quick_extra=(K == 3))
+    if ck.thorough:
+        for K, smp in ((2, True), (3, False)):
+            if trs_by_K.get(K) is not None:
+                with ck.section(f"categorical.fp32@K={K}"):
+                    sec_categorical_fp32(ck, trs_by_K[K], K, sample=smp)
     with ck.section("bernoulli"):
         sec_bernoulli(ck)
     for dims in ([(2, 3)] if not ck.thorough else [(2, 3), (2, 3, 2)]):
